@@ -144,9 +144,9 @@ func main() {
 	if r.Thorough() {
 		geos = append(geos, geo{96, 1}, geo{192, 2})
 	}
-	opts := []cuworld.TimingOpts{{Scoreboard: false, Resident: 1, Delays: []int{7, 50}}}
+	opts := []cuworld.TimingOpts{{Scoreboard: false, Resident: 1, Delays: []int{7, 50}, NoAddrAttribution: true}}
 	if r.Thorough() {
-		opts = append(opts, cuworld.TimingOpts{Scoreboard: true, Resident: 2, Delays: []int{7, 50}})
+		opts = append(opts, cuworld.TimingOpts{Scoreboard: true, Resident: 2, Delays: []int{7, 50}, NoAddrAttribution: true})
 	}
 	var scs []harness.Scenario
 	add := func(seq []string, g geo, o cuworld.TimingOpts, bound int) {
